@@ -432,6 +432,10 @@ func processField(ctx context.Context, name string, schema *Schema) (parameter *
 	case jsonObjectType:
 		parameter.Components, err = buildABIParameterArrayForObject(ctx, schema.Properties)
 	case jsonArrayType:
+		if schema.Items == nil {
+			// An array schema must describe its elements
+			return nil, i18n.NewError(ctx, signermsgs.MsgInvalidFFIDetailsSchema, name)
+		}
 		parameter.Components, err = buildABIParameterArrayForObject(ctx, schema.Items.Properties)
 	}
 	if err != nil {
